@@ -43,6 +43,17 @@ func VerifC13_DecoratorMalformedResponse() {
 	if rt.Bool("target-has-status") {
 		target.Object["status"] = map[string]interface{}{"phase": rt.String("phase")}
 	}
+	// the FINALIZE response type: the target is being deleted and carries the
+	// decorator's finalizer, the same near-valid answers arrive through the
+	// finalize hook, with finalized true or false
+	finalizing := rt.Bool("target-being-deleted-answer-comes-from-the-finalize-hook")
+	finalized := false
+	if finalizing {
+		rt.Cover("finalize-response")
+		verifDCSetFinalizers(target, verifDCFinalizerName)
+		env.MarkDeleting(target)
+		finalized = rt.Bool("finalized")
+	}
 	w.Srv.Put("things", target)
 	att := env.ConfigMap("ns", "a", "", "v")
 	md := att.Object["metadata"].(map[string]interface{})
@@ -96,30 +107,54 @@ func VerifC13_DecoratorMalformedResponse() {
 		verifC13Set(md, "namespace", v, p)
 		atts = append(atts, att)
 	}
+	// (the status / labels / resync dimensions are independent of which hook the
+	// answer came through: one shape each for the finalize variant)
 	var status map[string]interface{}
-	switch rt.Choice("status", 3) {
+	statusSel := 1
+	if !finalizing {
+		statusSel = rt.Choice("status", 3)
+	}
+	switch statusSel {
 	case 1:
 		status = map[string]interface{}{"phase": rt.String("new-phase")}
 	case 2:
 		status = map[string]interface{}{"conditions": rt.String("not-a-list")}
 	}
 	labels := map[string]*string{}
-	if rt.Bool("label-null") {
-		labels["gone"] = nil
+	resync := float64(0)
+	if !finalizing {
+		if rt.Bool("label-null") {
+			labels["gone"] = nil
+		}
+		if rt.Bool("label-set") {
+			labels["decorated"] = verifDCStrPtr(rt.String("label-value"))
+		}
+		if rt.Bool("labels-nil-map") {
+			labels = nil
+		}
+		resync = []float64{0, -1, 1e300}[rt.Choice("resyncAfterSeconds", 3)]
 	}
-	if rt.Bool("label-set") {
-		labels["decorated"] = verifDCStrPtr(rt.String("label-value"))
+	hook := verifDCConstHook(&v1.DecoratorHookResponse{Labels: labels, Status: status, Attachments: atts, ResyncAfterSeconds: resync, Finalized: finalized})
+	cfg := verifDCConfig{Attachments: []verifDCAttachment{{Res: env.ConfigMapRes, Method: "InPlace"}}, Sync: hook}
+	if finalizing {
+		cfg.FinalizeEnabled = true
+		cfg.Finalize = hook
+		cfg.Sync = verifDCConstHook(&v1.DecoratorHookResponse{})
 	}
-	if rt.Bool("labels-nil-map") {
-		labels = nil
-	}
-	resync := []float64{0, -1, 1e300}[rt.Choice("resyncAfterSeconds", 3)]
-	hook := verifDCConstHook(&v1.DecoratorHookResponse{Labels: labels, Status: status, Attachments: atts, ResyncAfterSeconds: resync})
-	dc := verifNewDC(w, verifDCConfig{Attachments: []verifDCAttachment{{Res: env.ConfigMapRes, Method: "InPlace"}}, Sync: hook})
+	dc := verifNewDC(w, cfg)
 	parents := dc.SnapshotFromStore()
 	err := dc.syncParentObject(parents[0])
 	rt.Observe("err", err != nil)
 	rt.Observe("what", what)
+	if finalizing {
+		live := w.Srv.Peek("things", "ns", "p")
+		if live != nil && verifDCHasFinalizer(live, verifDCFinalizerName) {
+			rt.Cover("finalize-response/finalizer-kept")
+		} else {
+			// the finalizer goes only after an answer that said finalized
+			rt.Assert(finalized, "decorator/finalize/finalizer-removed-although-not-finalized")
+		}
+	}
 	if what == "valid" {
 		rt.Cover("valid-response")
 		rt.Assert(err == nil, "decorator/valid-response/error")
